@@ -153,9 +153,16 @@ pub fn run(ctx: &Ctx) -> Outcome {
                 4 => Transform::translation(n + frac, n + frac),
                 _ => any_transform(&mut rng, c.w as f64, c.h as f64),
             };
-            if rng.chance(0.7) {
-                c.src_t = if rng.chance(0.6) { Transform::identity() } else { Transform::translation(rng.int(-3, 3) as f32, rng.int(-3, 3) as f32) };
-            }
+            // (the source transform that went with the replaced transform is replaced too: a source transform
+            // made to cancel a minifying current transform magnifies one texel over the whole surface otherwise)
+            c.src_t = match rng.below(4) {
+                0 | 1 => Transform::identity(),
+                2 => Transform::translation(rng.int(-3, 3) as f32, rng.int(-3, 3) as f32),
+                _ => Transform::scale(0.5, 0.5).then_translate(euclid::vec2(0.25, 0.25)),
+            };
+            // matrices of the general family have inverses with larger entries than C13's own families: the
+            // f32 inverse and product carry more rounding error into the 16.16 sampler
+            c.slack = 2.;
         }
         let mut co = CaseOut::default();
         co.hash = crate::prng::hash_str(&format!("{:?}{}{}{:?}{:?}{}{:?}", (c.w, c.h, c.iw, c.ih), c.repeat, c.bilinear, c.src_t, c.ctm, c.alpha, c.data));
@@ -180,9 +187,14 @@ pub fn run(ctx: &Ctx) -> Outcome {
             }
         }
         let spec = SrcSpec::Image { w: c.iw, h: c.ih, data: c.data.clone(), repeat: c.repeat, bilinear: c.bilinear, transform: c.src_t };
-        let pixels = match crate::scene::probe_source(c.w, c.h, &c.ctm, &spec, c.alpha) {
-            Some(p) => p,
-            None => return co,
+        let pixels = match crate::scene::probe_source_checked(c.w, c.h, &c.ctm, &spec, c.alpha) {
+            Ok(p) => p,
+            Err(crate::scene::ProbeFail::OutOfRange) => return co,
+            Err(crate::scene::ProbeFail::NotCovered(x, y, cov)) => {
+                co.viol("C11", format!("filling a rectangle that contains the whole surface with 3 px to spare leaves pixel ({},{}) with coverage {} under the current transform {}", x, y, cov, transform_str(&c.ctm)));
+                co.desc = Some(super::c13::case_desc(&c));
+                return co;
+            }
         };
         let res = super::c13::check_image(&c, &pixels, None);
         st.add("image_px_asserted_under_a_transform", res.asserted);
@@ -274,6 +286,131 @@ pub fn run(ctx: &Ctx) -> Outcome {
         }
         co
     });
+    // fill_rect is a fill of the rectangle's path: under transforms that are nearly (but not) a translation or
+    // the identity, with whole-number rectangles, also far from the origin on wide and tall surfaces where a
+    // small deviation from the identity moves pixels
+    run_cases(ctx, &mut out, SubSpec { name: "fill_rect_under_almost_special_transforms", cases: ctx.n(30_000, 500_000), exhaustive: false, max_secs: secs / 2. }, |i, want, st| {
+        let mut rng = ctx.rng("fill_rect_under_almost_special_transforms", i);
+        let long = i % 50 == 0;
+        let (w, h) = if long {
+            if rng.chance(0.5) { (rng.int(1100, 2600) as i32, rng.int(1, 3) as i32) } else { (rng.int(1, 3) as i32, rng.int(1100, 2600) as i32) }
+        } else {
+            (rng.int(2, 24) as i32, rng.int(2, 24) as i32)
+        };
+        let n = (w * h) as usize;
+        let init = canary(&mut rng, n);
+        let t = special_transform(&mut rng, w as f64, h as f64);
+        let (x, y) = (rng.int(-2, w as i64 - 1) as f32, rng.int(-2, h as i64 - 1) as f32);
+        let (rw, rh) = (rng.int(1, w as i64 + 2) as f32, rng.int(1, h as i64 + 2) as f32);
+        let color = premul_pixel(&mut rng);
+        let o = DrawOptions { blend_mode: random_mode(&mut rng), alpha: random_alpha(&mut rng), antialias: if rng.chance(0.7) { AntialiasMode::Gray } else { AntialiasMode::None } };
+        let mut a = DrawTarget::from_vec(w, h, init.clone());
+        a.set_transform(&t);
+        a.fill_rect(x, y, rw, rh, &Source::Solid(solid(color)), &o);
+        let mut b = DrawTarget::from_vec(w, h, init.clone());
+        let mut pb = PathBuilder::new();
+        pb.rect(x, y, rw, rh);
+        b.fill(&pb.finish().transform(&t), &Source::Solid(solid(color)), &o);
+        let mut co = CaseOut::default();
+        co.hash = crate::prng::hash_str(&format!("{:?}{:?}{:?}{}", (w, h, x, y, rw, rh), t, o, color));
+        let changed = a.get_data().iter().zip(init.iter()).filter(|(p, q)| p != q).count();
+        co.nontrivial = changed > 0 && changed < n;
+        st.add(if long { "long_surfaces" } else { "small_surfaces" }, 1);
+        if let Some(k) = a.get_data().iter().zip(b.get_data().iter()).position(|(p, q)| p != q) {
+            co.viol("C11", format!("fill_rect({},{},{},{}) under T={} gives {} at ({},{}) but the fill of the rectangle's path transformed by T gives {}", x, y, rw, rh, transform_str(&t), hex(a.get_data()[k]), k as i32 % w, k as i32 / w, hex(b.get_data()[k])));
+        }
+        if want || !co.violations.is_empty() {
+            let mut d = J::obj();
+            d.set("surface", J::s(&format!("{}x{}", w, h)));
+            d.set("transform", J::s(&transform_str(&t)));
+            d.set("rect", J::s(&format!("{},{} {}x{}", x, y, rw, rh)));
+            d.set("colour", J::s(&hex(color)));
+            d.set("options", J::s(&format!("{} alpha {} {:?}", mode_name(o.blend_mode), o.alpha, o.antialias)));
+            co.desc = Some(d);
+        }
+        co
+    });
+    // text is placed and sized in user space like everything else: under a uniform scale k (and a translation) a
+    // line of text covers the box that the same text covers at k times the size and position under the identity
+    // (glyph outlines are font-kit's: boxes of solidly painted pixels are compared, within 2 px)
+    if crate::text::available() > 0 {
+        run_cases(ctx, &mut out, SubSpec { name: "text_under_a_scale", cases: ctx.n(1_500, 30_000), exhaustive: false, max_secs: secs / 2. }, |i, want, st| {
+            let mut rng = ctx.rng("text_under_a_scale", i);
+            let (w, h) = (rng.int(40, 120) as i32, rng.int(20, 60) as i32);
+            let k = *rng.pick(&[0.5f32, 2.0, 3.0, 1.5, 0.25, 4.0]);
+            let (tx, ty) = (rng.int(-3, 6) as f32, rng.int(-3, 6) as f32);
+            let dev_size = rng.range(12., h as f64 * 0.8) as f32;
+            let n = rng.int(2, 6) as usize;
+            let alphabet: Vec<char> = "AgWil#o@Q8Hx".chars().collect();
+            let text: String = (0..n).map(|_| *rng.pick(&alphabet[..])).collect();
+            let (dx, dy) = (rng.range(0., w as f64 * 0.3) as f32, rng.range(h as f64 * 0.5, h as f64 * 0.95) as f32);
+            let glyphs = rng.chance(0.3);
+            let font = rng.below(3) as usize;
+            let aa = rng.chance(0.8);
+            let o = opts(BlendMode::SrcOver, 1., aa);
+            let bbox = |dt: &DrawTarget| -> Option<(i32, i32, i32, i32)> {
+                let (mut x0, mut y0, mut x1, mut y1) = (i32::MAX, i32::MAX, i32::MIN, i32::MIN);
+                for y in 0..h {
+                    for x in 0..w {
+                        if dt.get_data()[(y * w + x) as usize] >> 24 >= 128 {
+                            x0 = x0.min(x);
+                            y0 = y0.min(y);
+                            x1 = x1.max(x);
+                            y1 = y1.max(y);
+                        }
+                    }
+                }
+                if x1 >= x0 { Some((x0, y0, x1, y1)) } else { None }
+            };
+            // under the transform: user-space size and position
+            let mut a = DrawTarget::new(w, h);
+            a.set_transform(&Transform::scale(k, k).then_translate(euclid::vec2(tx, ty)));
+            crate::text::draw(&mut a, font, dev_size / k, &text, (dx - tx) / k, (dy - ty) / k, glyphs, &Source::Solid(WHITE), &o);
+            // the same picture under the identity (hand-placed glyphs advance by 0.7 of the size: scales along)
+            let mut b = DrawTarget::new(w, h);
+            crate::text::draw(&mut b, font, dev_size, &text, dx, dy, glyphs, &Source::Solid(WHITE), &o);
+            let mut co = CaseOut::default();
+            co.hash = crate::prng::hash_str(&format!("{:?}{}{}{}{}", (w, h, font, glyphs, aa), k, dev_size, text, dx + dy * 1000.));
+            let (ba, bb) = (bbox(&a), bbox(&b));
+            co.nontrivial = bb.is_some();
+            st.add("text_pairs", 1);
+            // glyph edges differ by a fraction of a pixel between the two ways of asking FreeType for the same
+            // outline (a whole pixel for aliased glyphs): the amount of ink and its centre of gravity are compared,
+            // which a cut-off or misplaced line of text changes a lot
+            let ink = |dt: &DrawTarget| -> (f64, f64, f64) {
+                let (mut s, mut sx, mut sy) = (0., 0., 0.);
+                for y in 0..h {
+                    for x in 0..w {
+                        let a = (dt.get_data()[(y * w + x) as usize] >> 24) as f64;
+                        s += a;
+                        sx += a * x as f64;
+                        sy += a * y as f64;
+                    }
+                }
+                if s > 0. { (s, sx / s, sy / s) } else { (0., 0., 0.) }
+            };
+            let (ia, ib) = (ink(&a), ink(&b));
+            if ib.0 > 255. * 150. {
+                st.add("text_pairs_compared", 1);
+                st.max("largest_relative_ink_difference", (ia.0 - ib.0).abs() / ib.0);
+                let dist = ((ia.1 - ib.1).powi(2) + (ia.2 - ib.2).powi(2)).sqrt();
+                if ia.0 > 0. {
+                    st.max("largest_distance_between_centres_of_gravity_px", dist);
+                }
+                if (ia.0 - ib.0).abs() > 0.35 * ib.0 || dist > 3. {
+                    co.viol("C11", format!("{:?} at device size {} under scale {} then translate ({},{}): ink {:.0} centred at ({:.1},{:.1}), but the same text at that size under the identity: ink {:.0} centred at ({:.1},{:.1}) (solid boxes {:?} vs {:?})", text, dev_size, k, tx, ty, ia.0 / 255., ia.1, ia.2, ib.0 / 255., ib.1, ib.2, ba, bb));
+                }
+            }
+            if want || !co.violations.is_empty() {
+                let mut d = J::obj();
+                d.set("surface", J::s(&format!("{}x{}", w, h)));
+                d.set("text", J::s(&format!("{:?} font #{} {} device size {} at device ({},{})", text, font, if glyphs { "draw_glyphs" } else { "draw_text" }, dev_size, dx, dy)));
+                d.set("scale", J::s(&fmt_f(k)));
+                co.desc = Some(d);
+            }
+            co
+        });
+    }
     run_cases(ctx, &mut out, SubSpec { name: "singular_transform_draws_nothing", cases: ctx.n(60_000, 1_000_000), exhaustive: false, max_secs: secs / 2. }, |i, want, st| {
         let mut rng = ctx.rng("singular_transform_draws_nothing", i);
         let w = rng.int(1, 16) as i32;
